@@ -204,6 +204,22 @@ func (c *stepCheck) checkIOFault(hung bool) {
 		}
 	}
 
+	// ---- containment (C02): a step downstream of a dependency that is finally failed (without
+	// continueOn.failure), canceled, or skipped (without continueOn.skipped) has not been executed
+	for i := range d.Steps {
+		st := &d.Steps[i]
+		if len(runsBy[st.Name]) == 0 {
+			continue
+		}
+		for _, dn := range st.Depends {
+			dep := d.Step(dn)
+			blocking := (label[dn] == "failed" && !dep.ContFail) || label[dn] == "canceled" || (label[dn] == "skipped" && !dep.ContSkip)
+			if blocking {
+				c.viol("C02", "blocked-step-executed", "iofault/"+label[dn]+"-dependency/"+tag(dn), "step %s was executed %d times although its dependency %s is finally %q (continueOn failure=%v skipped=%v; executions of the dependency %d, last one succeeded: %v)", st.Name, len(runsBy[st.Name]), dn, label[dn], dep.ContFail, dep.ContSkip, len(runsBy[dn]), lastOK(dn))
+			}
+		}
+	}
+
 	// ---- attempts (C03)
 	allDone, anyFailed := true, false
 	for i := range d.Steps {
